@@ -106,3 +106,20 @@ CHECKS["C13"] = {
         {"bin": "asan/C13", "cases": P(50000, 400000), "procs": P(8, 16), "size": 70, "shrink_budget": 300},
     ],
 }
+
+TOOLS = ["asan/tools/zck", "asan/tools/unzck", "asan/tools/zck_read_header", "asan/tools/zck_delta_size", "asan/tools/zck_gen_zdict", "asan/tools/zckdl"]
+
+CHECKS["C03"] = {
+    "level": "exploration",
+    "technique": "structure-aware fuzzing: generated header fields always sealed with a correct checksum (so parsing proceeds past the gate) + valid files with field/raw mutations + noise, driven through generated scripts of public API calls (and the ASan-built tools) in forked children under ASan/UBSan with a CPU-time limit; the same property builds as a coverage-guided libFuzzer target",
+    "level_text": "Every case runs in an isolated child under AddressSanitizer and UndefinedBehaviorSanitizer with a CPU-time bound; a report, signal or overrun is attributed to the exact case, confirmed by re-runs and shrunk. The generator seals every synthetic header, so the large majority of inputs exercise the parsers and everything behind them rather than dying at the checksum gate. Fuzzing never shows absence: evidence reports executions and the fraction past the gate.",
+    "level_note": "Leaks are out of scope (detect_leaks=0). Allocation failure is allowed (allocator_may_return_null=1, single allocations > 256 MiB fail). The harness itself does not materialise buffers for declared sizes above 64 MiB. zck_get_range_char on an empty request is exercised under C10, not here.",
+    "rule": "case = (input mode sealed/derived/raw/noise, field list + mutations, body, second file, API script, optional tool). Non-trivial = the reference confirms the header checksum of the input matches, i.e. the library's parsers were reached; distinct by hash of the input bytes.",
+    "assumptions": ["sanitizer-clean execution of a case stands for memory safety of that case", "CPU limit 40 s per case is far above the < 50 ms a normal case takes"],
+    "extra_targets": TOOLS,
+    "env": {"ASAN_OPTIONS_EXTRA": "max_allocation_size_mb=256"},
+    "runs": [
+        {"bin": "asan/C03", "cases": P(6000, 60000), "procs": P(8, 16), "size": 70, "cpu_limit": 40, "shrink_budget": 250},
+        {"kind": "fuzz", "bin": "asan/fuzz_C03", "cases": P(40000, 1500000), "procs": P(4, 16), "max_len": 6000},
+    ],
+}
